@@ -26,6 +26,10 @@ def cases(draw, tier="quick"):
         case["glob"] = dict(prefix=draw(st.sampled_from([b"", b"/pre"])), mode=None, uid=None, gid=None,
                             types=draw(st.sampled_from([None, None, ["f", "d", "l"], ["d", "f", "l", "p", "s", "c", "b"], ["d", "f"], ["f"], ["d", "l"]])))
         # filters that let some names of a multiply-linked file through and not others, or drop a directory whose contents match
+        # 'link' lines of the pack file that point at names the scan produces: resolved through whatever the scan made of that name
+        cand = [n["path"] for n in nodes if n["type"] in ("file", "hlink") and b"\n" not in n["path"]]
+        if cand and draw(st.sampled_from([False, False, True])):
+            case["glob"]["links"] = [draw(st.sampled_from(cand)) for _ in range(draw(st.integers(1, 2)))]
         flt = draw(st.sampled_from([None, None, "name", "path"]))
         if flt:
             case["glob"][flt] = draw(st.sampled_from([b"*a*", b"*e*", b"*1*", b"?", b"??*", b"[a-m]*", b"*[0-9]"]))
